@@ -31,6 +31,7 @@ from .. import q
 from ..cfg import must_facts, canon_fact, holds
 from .. import x_ws as X
 from ..model import AnalysisError
+from .. import x_wsnorm as NORM
 from ..rules import require_before, node_calls, event_facts
 from ..mutate import mutate, remove_stmts, replace_expr, replace_stmt, parse_stmt, parse_expr
 
@@ -648,6 +649,7 @@ def rule_client_validation(ck):
 
 
 def run(ck):
+    ck.repo = NORM.normalize(ck.repo, W, NORM.KEEP_WS)  # aliases, temporaries, 1-tuple unpacks, single-use private helpers (vt/x_wsnorm.py)
     ck.rule("C17.gate", "WebSocketHandler.get: accept_connection is reachable only through the passing edges of the Upgrade, Connection-token, origin and version tests (edge removal on the CFG)")
     ck.rule("C17.required-headers", "_accept_connection only after _handle_websocket_headers accepted Host/key/version; ValueError answers 400 without accepting")
     ck.rule("C17.accept-value", "accept value = base64(SHA-1(key + RFC GUID)); server sends it with 101/Upgrade/Connection; client compares by equality against its own key")
